@@ -78,7 +78,21 @@ fn gen_singular<T: Elem>(src: &mut Src, n: usize) -> (M<T>, &'static str) {
 fn run_t<T: Elem>(case: &mut Case) -> Outcome {
     let n = case.src.urange(1, 8);
     let want_singular = case.src.below(4) == 0;
-    let (a0, kind) = if want_singular { gen_singular::<T>(&mut case.src, n) } else { gen_square_k::<T>(&mut case.src, n, 6) };
+    let (mut a0, mut kind) = if want_singular { gen_singular::<T>(&mut case.src, n) } else { gen_square_k::<T>(&mut case.src, n, 6) };
+    // float types, half of the "dense" cases of order >= 5: a growth trap - unit diagonal (random signs), every entry below
+    // the diagonal of column j equal to -c_j times the diagonal (c_j = k/8, 1.125 <= c_j <= 7.875), last column ones.  With
+    // true partial pivoting the growth stays small; a thresholded or lazy exchange rule lets it compound like prod(1+c_j)
+    if !T::EXACT && kind == "dense" && n >= 5 && case.src.coin() {
+        let z = T::from_int(0);
+        for j in 0..n {
+            let sgn = if case.src.coin() { 1i64 } else { -1 };
+            let k = 9 + case.src.below(55) as i64;
+            for i in 0..n {
+                a0[i][j] = if i == j { T::from_int(sgn) } else if i > j { T::from_int(-k * sgn).scale2(-3) } else if j == n - 1 { T::from_int(1) } else { z };
+            }
+        }
+        kind = "growth-trap";
+    }
     // float types: the whole matrix may live at a very small or very large scale, 2^k with |k| <= 60
     // (det scales by 2^(k n), the inverse by 2^-k, both exactly)
     let gk: i32 = if !T::EXACT && case.src.below(3) == 0 { case.src.small_int(60) as i32 } else { 0 };
